@@ -11,7 +11,8 @@ one() {
   chk=$(/venv/bin/python -c "import json,re,sys; m=json.load(open('/verif/seeded/$id/meta.json')); c=str(m.get('caught_by') or m.get('property')); print(re.match(r'C\d\d', c).group(0))")
   neut=$(/venv/bin/python -c "import json; print(json.load(open('/verif/seeded/$id/meta.json')).get('neutralised_by_fix',''))")
   if [ -n "$neut" ]; then echo "$id $chk neutralised-by-fix-$neut (the change no longer breaks the property on the repaired tree; see its meta.json)"; return; fi
-  out=$(/verif/tools_seedtest.sh $chk /verif/seeded/$id/patch.diff 2>&1)
+  tier=$(/venv/bin/python -c "import json; print(json.load(open('/verif/seeded/$id/meta.json')).get('tier','quick'))")
+  out=$(/verif/tools_seedtest.sh $chk /verif/seeded/$id/patch.diff $tier 2>&1)
   rc=$(echo "$out" | sed -n 's/^exit=//p')
   v=$(echo "$out" | grep -m1 '^VIOLATION' | cut -c1-260)
   if [ "$rc" = "1" ] && [ -n "$v" ]; then st=caught; elif [ "$rc" = "0" ]; then st=MISSED; else st="machinery(exit=$rc)"; fi
